@@ -84,12 +84,23 @@ class MultiObjectiveExperimenter(experimenter.Experimenter):
       for idx, copied in enumerate(suggestions_copy):
         measurement = measurements[idx]
         assert copied.final_measurement is not None
+        if (
+            copied.infeasible
+            and exptr_metric_name not in copied.final_measurement.metrics
+        ):
+          # Infeasible trials may be completed without any metric.
+          continue
         measurement.metrics[name] = copied.final_measurement.metrics[
             exptr_metric_name
         ]
 
-    for suggestion, measurement in zip(suggestions, measurements):
-      suggestion.complete(measurement)
+    # A trial that any of the objectives marked infeasible stays infeasible.
+    for suggestion, copied, measurement in zip(
+        suggestions, suggestions_copy, measurements
+    ):
+      suggestion.complete(
+          measurement, infeasibility_reason=copied.infeasibility_reason
+      )
 
     return suggestions
 
